@@ -189,7 +189,10 @@ func c01ContentMutants(b []byte, emit func([]byte)) {
 	if len(b) >= 8 {
 		off := len(b) - 8
 		old := binary.LittleEndian.Uint64(b[off:])
-		for _, v := range []uint64{0, 1, 8191, 8192, old % 8192, old - 8192, old + 8192, old - 1, old + 1, 1<<63 - 1, 1 << 63, math.MaxUint64 - 8191, math.MaxUint64} {
+		// ... and at the ends of the accumulators: 758 historical roots cover slots below 758*8192
+		// (= mainnet's Capella fork slot), the summaries start there
+		const capella = 758 * 8192
+		for _, v := range []uint64{0, 1, 8191, 8192, old % 8192, old - 8192, old + 8192, old - 1, old + 1, capella - 8192, capella - 1, capella, capella + 8191, capella + 8192, 1<<63 - 1, 1 << 63, math.MaxUint64 - 8191, math.MaxUint64} {
 			if v != old {
 				m := append([]byte{}, b...)
 				binary.LittleEndian.PutUint64(m[off:], v)
